@@ -785,8 +785,9 @@ def tab_cli_derive(run):
     guard = False
     for bi, t in f.calls():
         if (t.get("callee") or "") == "std::cmp::PartialEq::eq" and t["target"] is not None and not t["dest"]["p"]:
-            inp = [l for l in range(1, f.arg_count + 1) if f.local_name(l) == "input_filename"]
-            if not inp:
+            # the input file name is the string parameter of derive_output_filename
+            inp = [l for l in range(1, f.arg_count + 1) if re.search(r"^&(std::string::String|str)$", f.local_ty(l) or "")]
+            if len(inp) != 1:
                 continue
             if not any(value_depends_on(f, a, inp[0]) for a in t["args"]):
                 continue
